@@ -9,7 +9,22 @@ enum Op { ADD, ADDT, ADDTYPE, EMPTY, GETOBJS, REMOVE, REMOVEPRED, COPY, CHECKTYP
 static const char* const OPN[] = {"addObject", "addObject+type", "addType", "empty", "getObjects", "removeObject(name)",
                                   "removeObject(pred)", "copyObject", "checkObjectType", "findObject(name)", "findObject(pred)",
                                   "findObject(pred,type)"};
-static const char* NAMES[] = {"a", "b", "c", "d"};
+// names come in families chosen by the round, each in ascending order: plain names; the empty name, a one-NUL name, a name
+// and the same name continued behind an embedded NUL; names too long for the small-string buffer that share a long prefix
+static std::string NM(int i)
+{
+    switch (vrf::res.cur_round % 4) {
+        case 1: {
+            static const std::string f[] = {std::string(), std::string(1, '\0'), std::string("ab"), std::string("ab\0cd", 5)};
+            return f[i];
+        }
+        case 2: return std::string(40, 'n') + static_cast<char>('0' + i);
+        default: {
+            static const char* f[] = {"a", "b", "c", "d"};
+            return f[i];
+        }
+    }
+}
 constexpr int NNAMES = 4;
 
 static bool pred_match(int kind, int arg, uint32_t oid)
@@ -254,7 +269,7 @@ static void run_thread(SOH& soh, int tid, const std::vector<POp>& script, std::v
                     obj = std::make_shared<Cell>();
                     obj->set_raw(static_cast<uint32_t>(p.b));
                 }
-                o.r = soh.addObject(NAMES[p.a], std::move(obj));
+                o.r = soh.addObject(NM(p.a), std::move(obj));
                 break;
             }
             case ADDT: {
@@ -264,10 +279,10 @@ static void run_thread(SOH& soh, int tid, const std::vector<POp>& script, std::v
                     obj->set_raw(static_cast<uint32_t>(p.b));
                 }
                 o.r2 = p.c;
-                o.r = soh.addObject(NAMES[p.a], std::move(obj), p.c);
+                o.r = soh.addObject(NM(p.a), std::move(obj), p.c);
                 break;
             }
-            case ADDTYPE: soh.addType(NAMES[p.a], p.b); break;
+            case ADDTYPE: soh.addType(NM(p.a), p.b); break;
             case EMPTY: o.r = soh.empty(); break;
             case GETOBJS: {
                 auto v = soh.getObjects();
@@ -284,15 +299,15 @@ static void run_thread(SOH& soh, int tid, const std::vector<POp>& script, std::v
                 if (!v.empty() && v[0]) kept.push_back(v[0]);
                 break;
             }
-            case REMOVE: o.r = soh.removeObject(std::string(NAMES[p.a])); break;
+            case REMOVE: o.r = soh.removeObject(NM(p.a)); break;
             case REMOVEPRED:
                 o.r = soh.removeObject(pred);
                 o.r2 = last_true;
                 break;
-            case COPY: o.r = soh.copyObject(NAMES[p.a], NAMES[p.b]); break;
-            case CHECKTYPE: o.r = soh.checkObjectType(NAMES[p.a], p.b); break;
+            case COPY: o.r = soh.copyObject(NM(p.a), NM(p.b)); break;
+            case CHECKTYPE: o.r = soh.checkObjectType(NM(p.a), p.b); break;
             case FIND:
-                got = soh.findObject(std::string(NAMES[p.a]));
+                got = soh.findObject(NM(p.a));
                 break;
             case FINDPRED: got = soh.findObject(pred); break;
             case FINDPREDTYPE:
@@ -416,7 +431,7 @@ int main(int argc, char** argv)
                 for (auto& cand : frontier) {
                     bool okc = true;
                     for (int i = 0; i < NNAMES; i++) {
-                        auto f = soh->findObject(std::string(NAMES[i]));
+                        auto f = soh->findObject(NM(i));
                         uint8_t v = f ? static_cast<uint8_t>(f->value()) : 0;
                         if (v != (cand.oid[i] == NULLOID ? 0 : cand.oid[i])) okc = false;
                     }
@@ -463,7 +478,7 @@ int main(int argc, char** argv)
         if (r % 3000 == 0) vrf::sample("{\"program\":" + pj + ",\"history\":" + vrf::jarr(all.begin(), all.end(), [](const LinOp& o) { return vrf::linop_json(o, OPN); }) + "}");
         // empty the holder (its destructor waits for outside owners otherwise), 1 in 50 rounds exercises that wait
         if (!rng.chance(2))
-            for (int i = 0; i < NNAMES; i++) soh->removeObject(std::string(NAMES[i]));
+            for (int i = 0; i < NNAMES; i++) soh->removeObject(NM(i));
         for (auto& k : kept) k.clear();
         delete soh;
         if (vrf::g_cell_live.load() != base_live)
